@@ -442,6 +442,9 @@ func (state *state) Expire() error {
 	if modified {
 		err := state.rewrite()
 		if err != nil {
+			// the file still holds the expired tokens, make
+			// sure we reload it
+			state.reset()
 			return err
 		}
 	}
